@@ -110,7 +110,7 @@ def d_steps(t):
         elif k == 4:
             st = ("cancel-caller", t[i + 1]); i += 2
         elif k == 5:
-            st = ("backoff", t[i + 1]); i += 2
+            st = ("backoff", t[i + 1]) if t[i + 1] >= 0 else ("backoff-of-the-peer-expires",); i += 2
         elif k == 6:
             st = ("gater-parks-next-request-handling",); i += 1
         elif k == 7:
@@ -144,6 +144,8 @@ def canon_d(t, upto):
             out.append("bo%d" % st[1])
         elif k.startswith("gater-parks"):
             out.append("park")
+        elif k.startswith("backoff-of-the-peer"):
+            out.append("boexp")
         else:
             out.append("release")
     return " ".join(out)
@@ -304,7 +306,9 @@ def canon_lim(t, upto):
 DCLAUSE = {1: "return-not-exactly-once/wrong-peer/unjustified-conn", 2: "cancelled-caller-not-released", 3: "address-handed-to-transport-twice",
            4: "caps", 5: "cancel-of-one-caller-ended-shared-dials", 6: "residue-after-all-returned", 7: "caller-count",
            8: "caller-never-returned", 9: "caller-waits-with-no-dial-in-flight(eligible-address-never-attempted)",
-           10: "address-list-handed-to-worker-names-an-address-twice(modulo-/p2p-suffix)"}
+           10: "address-list-handed-to-worker-names-an-address-twice(modulo-/p2p-suffix)",
+           11: "call-returned-an-error-while-a-candidate-address-had-neither-failed-nor-been-refused",
+           12: "eligible-address(not-in-back-off-since-the-caller-called)-never-attempted-for-a-waiting-caller"}
 ACLAUSE = {1: "address-returned-twice", 2: "returned-address-should-have-been-filtered",
            3: "dialable-address-silently-discarded", 4: "addresses-reported-with-error-are-not-those-without-transport"}
 WCLAUSE = {1: "request-answered-twice", 2: "address-handed-to-transport-twice", 3: "response-not-justified",
@@ -375,7 +379,7 @@ if __name__ == "__main__":
         "composite: ModelComposite.cstep is an LTS over the atomic sections of dialPeer / dialSync.Dial / the worker loop / the limiter (labels CCall, CDeliver, CTimer, CBegin, CRes, CFin, CCancel, CLeave, CExit) that moves the component models only by their own steps; theorems c05_composite_* hold for every schedule (list of labels). Merged sections: the AddDialJob calls of one timer case are part of that step; a worker whose reqch is closed is frozen except for its exit (its further iterations touch only its own dead state, the back-off table and jobs whose context is already cancelled); back-off, existing connections, rankings and the clock are environment answers carried by the labels",
         "composite correspondence: every recorded DialPeer scenario is replayed by the composite model under the harness-level semantics of SpecComposite (one stimulus, then every enabled step until nothing moves). ACCEPTANCE: when the last caller leaves in the same step in which a dial ends, finishedDial races with the cancellation of the shared context, so a queued job that gets a token may or may not reach its transport before it is cancelled; such transient dial starts/ends may be any subset of those the model's schedule produces; everything else must agree exactly",
         "REPAIRED DEFECT (known_findings/C05.json, status fixed, /repo commit e092243): clearAllPeerDials, run by the deferred exit of a worker that returns late, used to delete the live jobs a newer active dial for the same peer had queued on the per-peer limit. The model transcribes the repaired code (only jobs whose context is done are dropped); c05_composite_no_lost_job now holds for every schedule; the old code is kept as clear_peer_old for the non-vacuity example; the harness scenario c05DialPeerStaleExit (old worker parked in the connection gater) is a fixed regression case on which monitor clause 9 must hold",
-        "HEADLINE (composite monitor): c05_composite_monitor_accepts proves that the DialPeer monitor (clauses 1-7 and 9) accepts every trace of the composite model under the harness-level semantics, for every sequence of stimuli that satisfies SpecDialPeer.wf_stims_b (fresh caller ids, repetition-free rankings with delays in [0, 2 s), non-negative clock advances; the driver evaluates the same boolean on every recorded case and rejects the case otherwise) and limits >= 1. The harness-level semantics is presented as a relation (Proofs_CompositeH.hstep) whose moves carry the oracle answers the semantics gives them; its drain runs as many rounds as a bound computed from the state (SpecComposite.phi) and c05_composite_drain_quiescent proves that it ends in a state in which nothing can move. Clause 8 (the case ends with every caller returned) is a statement about how the harness ends a case, not about the model. The harness-level semantics lets a cancelled caller take its ctx.Done case first (the harness never has a response pending at that point); dial results of kind progress (TCP connection established, upgrade pending) are not produced by the DialPeer harness and are excluded from the composite headline (the worker-level theorems cover them). Concurrency finer than the listed atomic sections is covered by the correspondence only",
+        "HEADLINE (composite monitor): c05_composite_monitor_accepts proves that the DialPeer monitor (clauses 1-7 and 9) accepts every trace of the composite model under the harness-level semantics, for every sequence of stimuli that satisfies SpecDialPeer.wf_stims_b (fresh caller ids, repetition-free rankings with delays in [0, 2 s), non-negative clock advances; the driver evaluates the same boolean on every recorded case and rejects the case otherwise) and limits >= 1. The harness-level semantics is presented as a relation (Proofs_CompositeH.hstep) whose moves carry the oracle answers the semantics gives them; its drain runs as many rounds as a bound computed from the state (SpecComposite.phi) and c05_composite_drain_quiescent proves that it ends in a state in which nothing can move. Clause 8 (the case ends with every caller returned) is a statement about how the harness ends a case, not about the model. The harness-level semantics lets a cancelled caller take its ctx.Done case first (the harness never has a response pending at that point); dial results of kind progress (TCP connection established, upgrade pending) are not produced by the DialPeer harness and are excluded from the composite headline (the worker-level theorems cover them). Concurrency finer than the listed atomic sections is covered by the correspondence only. Clauses 10 (ranking names an address once), 11 (a call returns an error only when every address of its ranking has failed - a connection to another peer counts as a failure of that address - or been in back-off) and 12 (after 2 s, no worker parked, no limiter cap reached: every address of a waiting caller's ranking has been handed to a transport or has been in back-off since that caller called; the back-off of the peer may expire in mid-case, stimulus 5 -1) are evaluated by monitor_d_case on the implementation's traces only; the model replays the same traces (conformance), and their worker-level counterparts are proved (c05_worker_monitor_holds clause 3, c05_all_eligible_attempted)",
         "ranker: addresses are the tuple of answers of the predicates the ranker evaluates (recorded from the real predicates); sort.Slice is a Section hypothesis (permutes its input), instantiated with stable insertion sort (what sort.Slice runs for <= 12 elements; cases have <= 10 addresses)",
         "addrsForDial: modelled as the pure pipeline ModelAddrs.addrs_pipeline (resolve, strip /p2p, keep each address once, then filterKnownUndialables in the code's order: no transport -> reported; low priority among the DIALABLE ones; unspecified IP; relayed under ForceDirectDial). c05_addrs_pipeline_spec: an address is handed to the worker iff some entry resolves to it, the swarm has a transport for it, and none of the filters legitimately removes it - in particular a /ws (/webtransport) address only if a DIALABLE /tcp (/quic-v1) address of the same ip:port exists; c05_addrs_pipeline_once_and_errors: each once, and exactly the addresses without a transport are reported. ma.Unique (sort + drop equal neighbours) is modelled as a set operation. Tied to the code by wire kind 6: every addrsForDial answer the DialPeer harness obtains (swarms with all or a random subset of the tcp / ws / quic / webtransport fake transports, tcp+ws and quic+webtransport pairs on one ip:port, aliased address forms, scripted resolver) is compared with the pipeline (conformance) and judged by the proved characterisation (monitor). Not in the harness, hence not in the model: dial-to-self, link-local, gater refusals, black-hole detector (disabled). That dialPeer copies the reported addresses into the DialError it returns is not observed",
         "black-hole detector and back-off expiry are inputs (BackoffBase is set to 24h in the worker harness so entries do not expire in a case)",
@@ -411,7 +415,8 @@ if __name__ == "__main__":
              "back to the peerstore; addresses are numbered after stripping /p2p, so that the monitor clauses 3 and 10 compare them as the code's de-duplication intends; "
              "one case in three runs on a swarm whose direct fake transport claims only a random subset of tcp / ws / quic-v1 / webtransport, and an address may be followed by its fallback on the same ip:port (/ws after /tcp, /webtransport after /quic-v1); "
              "every addrsForDial answer obtained on the way is a case of its own (kind 6) compared with ModelAddrs.addrs_pipeline and judged by SpecAddrs.should_dial; "
-             "plus the fixed scenarios: a swarm with only the fallback transports and a peer advertising both on one ip:port, a /dnsaddr peer dialed again while its resolved address is cached, a caller cancelled while blocked sending its request, and the regression scenario of the repaired defect (a closed worker parked in the connection gater returns after a new active dial has "
+             "a scripted dial may also end with a connection authenticated as ANOTHER peer (recorded as a failure of that address), the back-off table of the peer may expire while callers wait, relays named by DNS over wss / webtransport / tcp (left unresolved: the circuit transport skips resolution; no ip:port, never dominated) are among the address kinds; "
+             "plus the fixed scenarios: wrong-peer connection first / last, back-off expiring before a second caller joins, a swarm with only the fallback transports and a peer advertising both on one ip:port, a /dnsaddr peer dialed again while its resolved address is cached, a caller cancelled while blocked sending its request, and the regression scenario of the repaired defect (a closed worker parked in the connection gater returns after a new active dial has "
              "queued jobs); every observation replayed by the composite model (SpecComposite) and judged by the monitor. Non-trivial = two callers inside at once and a transport dial started. "
              "ranker: DefaultDialRanker on 0-10 real multiaddrs of 19 kinds, output compared element by element. Non-trivial = >= 3 addresses "
              "with both IP versions. distinct = distinct case lines.",
